@@ -212,6 +212,62 @@ fn body(mode: &str, n: usize, shape: &str, stack: usize) {
                 drop(a);
             }
         }
+        "diverge8" => {
+            // two descendants that share the long tail and each play 8 further turns of their own; dropped in both orders
+            drop(mid);
+            let grow = |base: &GameState, pick: usize| -> GameState {
+                let mut g = base.clone();
+                for t in 0..8usize {
+                    let va = g.valid_actions();
+                    let steps: Vec<&Action> = va.iter().filter(|a| matches!(a, Action::Move(_, _)) && g.trapped_animal_for_action(a).is_none()).collect();
+                    let a = *steps[(pick + t) % steps.len()];
+                    let h = g.take_action(&a);
+                    g = if h.valid_actions().contains(&Action::Pass) { h.take_action(&Action::Pass) } else { h };
+                }
+                g
+            };
+            for order in 0..2 {
+                let a = grow(&s, 0);
+                let b = grow(&s, 1);
+                if order == 0 {
+                    drop(a);
+                    acc += queries(&b);
+                    drop(b);
+                } else {
+                    drop(b);
+                    acc += queries(&a);
+                    drop(a);
+                }
+            }
+            drop(s);
+        }
+        "clones64" => {
+            drop(mid);
+            let clones: Vec<GameState> = (0..64).map(|_| s.clone()).collect();
+            drop(s);
+            for (i, c) in clones.into_iter().enumerate() {
+                if i % 16 == 0 {
+                    acc += queries(&c);
+                }
+                drop(c);
+            }
+        }
+        "tail_handle" => {
+            // handles into the middle of the history (tail of tail ...) outlive the state, then go last
+            drop(mid);
+            let hist = s.unwrap_play_phase().hash_history().clone();
+            let t1 = hist.tail();
+            let mut deep = t1.tail();
+            for _ in 0..8 {
+                deep = deep.tail();
+            }
+            drop(s);
+            drop(hist);
+            acc += t1.len();
+            drop(t1);
+            acc += deep.iter().count();
+            drop(deep);
+        }
         "concurrent" => {
             // two (then three) owners of the same history release it at the same moment on different threads; repeated
             // with fresh histories (sampled schedules - the exhaustive counterpart is loom body B6)
